@@ -117,6 +117,8 @@ def node(kind, id_, parents, k0, sp):
         return (f'<rect id="{id_}" xy="{{{{{p[0]}~x2 + {a[0]}}}}} {{{{{p[0]}~cy}}}}" width="{{{{{p[0]}~w}}}}" height="{{{{{p[0]}~h + 1}}}}"/>', [(2, *GP)])
     if kind == "T":      # absolute compound geometry; the element is held back by a NON-geometry attribute that needs the parent
         return f'<rect id="{id_}" cxy="{a[0]} {a[1]}" {size(a[2], a[3])} dw="2" data-w="{{{{{p[0]}~w}}}}"/>', [(9 + 2 * n, *POS), (6, *POS), (6, *SZ), (8, *SZ)]
+    if kind == "Tt":     # plain longhand geometry; only the transform needs the parent
+        return f'<rect id="{id_}" x="{a[0]}" y="{a[1]}" width="{a[2]}" height="{a[3]}" transform="translate({{{{{p[0]}~w}}}} 0)"/>', [(9 + 2 * n, *POS), (6, *POS), (6, *SZ), (8, *SZ)]
     if kind == "Tc":     # same with a circle given by cxy + r and a text that needs the parent
         return f'<circle id="{id_}" cxy="{a[0]} {a[1]}" r="{a[2]}" text="{{{{{p[0]}~h}}}}"/>', [(9 + 2 * n, *POS), (6, *POS), (6, *SZ)]
     if kind == "Tx":     # xy + longhand size + dx, held back by an rx expression
@@ -146,7 +148,7 @@ def node(kind, id_, parents, k0, sp):
 
 
 N0 = ["R", "C"]
-N1 = ["H", "V", "L", "LC", "Z", "Zd", "Zp", "Zr", "X", "S1", "U", "G", "Hd", "E", "EZ", "ER", "T", "Tc", "Tx", "PA", "PL", "CG"]
+N1 = ["H", "V", "L", "LC", "Z", "Zd", "Zp", "Zr", "X", "S1", "U", "G", "Hd", "E", "EZ", "ER", "T", "Tt", "Tc", "Tx", "PA", "PL", "CG", "PT2"]
 N2 = ["S2", "I2", "K", "KL", "KP"]
 SHAPES = {   # node index -> parents (indices); listed in dependency order
     "pair": [[], [0]],
@@ -157,6 +159,7 @@ SHAPES = {   # node index -> parents (indices); listed in dependency order
     "diamond4": [[], [0], [0], [1, 2]],
     "join-then4": [[], [], [0, 1], [2]],
     "mixed4": [[], [0], [0, 1], [2]],
+    "tri3": [[], [0], [0, 1]],                  # a two-parent element (connector, surround) between an element and something placed against it
     "g-and-sibling": [[], [], [0], [1, 2]],     # surround of an independent element and a group whose content refers elsewhere
 }
 SPELL = [dict(size="wh", pos="xy"), dict(size="long", pos="xy"), dict(size="long", pos="long"), dict(size="wh", pos="long")]
@@ -200,6 +203,8 @@ def templates(tier, seed):
             tds.append(dict(fam="order", shape="chain3", kinds=["R", "H", "S1"], sp=si, perm=list(perm)))
     for kinds, shape in ((["R", "G", "S2x"], "g-surround"), (["R", "Hd", "E"], "chain3"), (["R", "G", "S1"], "chain3"), (["C", "Hd", "ER"], "chain3"), (["R", "G", "E"], "chain3"), (["R", "Hd", "EZ"], "chain3"), (["C", "L", "EZ"], "chain3"),
                          (["R", "T", "H"], "chain3"), (["R", "Tc", "L"], "chain3"), (["R", "Tx", "H"], "chain3"), (["R", "PA", "H"], "chain3"), (["R", "PA", "S1"], "chain3"),
+                         (["R", "PT2", "K"], "tri3"), (["C", "PT2", "KL"], "tri3"), (["R", "PT2", "KP"], "tri3"), (["R", "H", "K"], "tri3"), (["R", "PT2", "S2"], "tri3"),
+                         (["R", "Tt", "H"], "chain3"), (["R", "Tt", "S1"], "chain3"), (["C", "Tt", "Z"], "chain3"),
                          (["R", "H", "Zd"], "chain3"), (["R", "H", "Zp"], "chain3"), (["R", "V", "Zr"], "chain3"), (["C", "L", "Zd", "H"], "chain4"), (["R", "Hd", "Zp", "S1"], "chain4"),
                          (["C", "LC", "H"], "chain3"), (["R", "RU", "VS"], "chain3"), (["R", "RU", "VS", "H"], "chain4"), (["R", "CP", "GC"], "chain3"), (["R", "CP", "GC", "S1"], "chain4"), (["R", "CP", "GC", "H"], "chain4"), (["R", "CG", "H"], "chain3"), (["R", "CG", "S1"], "chain3"), (["R", "T", "S1"], "chain3"), (["R", "PL", "S1"], "chain3")):
         if shape == "g-surround":
@@ -239,7 +244,7 @@ def templates(tier, seed):
     if tier == "quick":
         keep = [t for t in tds if t["fam"] == "unsat" or t.get("sysn") or t.get("fixed") or t.get("kinds") in (["R", "H", "S1"], ["R", "T", "H"], ["R", "Tc", "L"], ["R", "Tx", "H"], ["R", "PA", "H"], ["R", "PA", "S1"], ["C", "LC", "H"], ["R", "RU", "VS"], ["R", "RU", "VS", "H"], ["R", "CP", "GC"], ["R", "CP", "GC", "S1"], ["R", "CP", "GC", "H"], ["R", "CG", "H"], ["R", "CG", "S1"], ["R", "T", "S1"], ["R", "PL", "S1"], ["R", "Hd", "EZ"], ["C", "L", "EZ"], ["R", "Hd", "E"], ["R", "G", "S1"], ["C", "Hd", "ER"], ["R", "G", "E"], ["R", "R", "G", "S2"])]
         rest = [t for t in tds if t not in keep and not t.get("sysn")]
-        tds = keep + sample_quota(rest, lambda t: (t["shape"],), {"pair": 20, "chain3": 50, "fan3": 40, "join3": 40, "chain4": 30, "diamond4": 30, "join-then4": 30, "mixed4": 30, "g-and-sibling": 0}, seed)
+        tds = keep + sample_quota(rest, lambda t: (t["shape"],), {"pair": 20, "chain3": 50, "fan3": 40, "join3": 40, "tri3": 30, "chain4": 30, "diamond4": 30, "join-then4": 30, "mixed4": 30, "g-and-sibling": 0}, seed)
     return tds
 
 
